@@ -15,7 +15,9 @@ META = {
     'rules': {
         'R1': 'the safety radius is k*sqrt(max over ALL vertices of radius^2) with k >= 2: reduction is a maximum with the natural comparator over the unfiltered vertex list',
         'R2': 'every normal path that changes the vertex multiset (truncate/push/element assignment/initial construction) reaches the radius update before returning',
-        'R3': 'radius^2 of a vertex is the squared distance from the generator to the vertex projected on the active subspace (projection keeps at least the active axes)',
+        'R3': 'radius^2 of a vertex is the squared distance from the generator to the vertex projected on the active subspace (projection keeps at least the active axes); '
+              'every vertex a cell starts with is built by the vertex constructor from the cell\'s OWN generator position and the boundary\'s planes (no vertex record shared between cells), '
+              'and radius^2 is written nowhere else',
         'R4': 'termination test: the builder stops only when c_l*safety_radius < c_r*|L-R| with (c_l/c_r)*k >= 2',
         'R5': 'the reported VoronoiCell.safety_radius is the builder\'s value',
     },
@@ -75,6 +77,7 @@ def run(ctx):
         ctx.guarded('C16.R1', 'reduction' + sfx, lambda: r1(ctx, F, sfx))
         ctx.guarded('C16.R2', 'must-update' + sfx, lambda: r2(ctx, F, sfx))
         ctx.guarded('C16.R3', 'radius2' + sfx, lambda: r3(ctx, F, sfx))
+        ctx.guarded('C16.R3', 'initial-vertices' + sfx, lambda: initial_vertices(ctx, F, 'C16.R3', sfx))
         ctx.guarded('C16.R4', 'termination' + sfx, lambda: r4(ctx, F, sfx))
         ctx.guarded('C16.R5', 'stored-value' + sfx, lambda: r5(ctx, F, sfx))
 
@@ -386,3 +389,55 @@ def r5(ctx, F, sfx):
                 if s['k'] == 'assign' and s['place']['l'] == l and not s['place']['p'] and s['rv']['k'] == 'use' and s['rv']['x']['k'] in ('copy', 'move'):
                     src = [e.get('n') for e in s['rv']['x']['place']['p'] if e['k'] == 'field']
     ctx.check('C16.R5', 'stored-value' + sfx, ok and src == ['safety_radius'], 'VoronoiCell.safety_radius <- %s' % (src,), 'the convex cell\'s safety_radius', where(fb, t['line']), key_extra='source')
+
+
+def initial_vertices(ctx, F, rule, sfx):
+    """The start cell: every vertex is Vertex::from_dual(i, j, k, <the boundary's planes>, <this cell's generator>, <dimensionality>);
+    the radius^2 field has no writer other than the vertex constructor.  Shared with C01.R5."""
+    init = F.body_by_suffix('ConvexCell::init')
+    fd = F.body_by_suffix('Vertex::from_dual')
+    ip = I.Interp(F, no_inline=[fd['path'], F.body_by_suffix('::update_safety_radius')['path']])
+    bd = I.Sym(nf.sym_atom('bd'), 'voronoi::boundary::SimulationBoundary')
+    v, _ = ip.call_body(init, [I.sym_vec3('L'), RF.sym('idx'), ip.ref_to(bd)])
+    ctx.evaluations += ip.evaluations
+    w = where(init)
+    vs = I.frozen(I.get_field(v, 'vertices'))
+    items = None
+    if isinstance(vs, I.St) and vs.adt == 'array':
+        items = [vs.fields[k] for k in sorted(vs.fields, key=lambda x: int(x))]
+    if not items:
+        if 'phi' in repr(vs) or 'call:' in repr(vs):
+            raise AnalysisIncomplete('initial vertex list is not a literal list: %s' % repr(vs)[:160])
+        # a value that does not depend on this cell's generator at all (e.g. a list stored in the boundary)
+        ctx.bad(rule, 'start-vertices-measured-from-own-generator' + sfx, 'the start vertices are %s — not built for this cell' % repr(vs)[:120],
+                '8 x Vertex::from_dual(i, j, k, &clipping_planes, loc, dimensionality) with loc the cell\'s generator', w, key_extra='start-vertices')
+        return
+    bad = []
+    Ltxt = repr(I.frozen(I.sym_vec3('L')))
+    for n, it in enumerate(items):
+        at = it.atom if isinstance(it, I.Sym) else None
+        ok = at is not None and at.kind == 'app' and at.name == 'call:' + fd['path'] and len(at.args) == 6
+        if ok:
+            ok = repr(at.args[4]) == Ltxt and 'clipping_planes' in repr(at.args[3]) and repr(at.args[3]).startswith('bd.') and repr(at.args[5]) == 'bd.dimensionality'
+        if not ok:
+            bad.append('#%d: %s' % (n, repr(it)[:140]))
+    ctx.check(rule, 'start-vertices-measured-from-own-generator' + sfx, not bad and len(items) == 8, bad[:2] or '%d vertices, each from_dual(_, _, _, boundary planes, L, boundary dimensionality)' % len(items),
+              '8 x Vertex::from_dual(i, j, k, &clipping_planes, loc, dimensionality) with loc the cell\'s generator', w, key_extra='start-vertices')
+    ctx.check(rule, 'cell-generator-is-the-argument' + sfx, repr(I.frozen(I.get_field(v, 'loc'))) == Ltxt, repr(I.frozen(I.get_field(v, 'loc')))[:80], 'cell.loc == loc', w, key_extra='cell-loc')
+    # writers of radius2: aggregate sites of Vertex / assignments to the field, outside the vertex constructor
+    writers = []
+    for b in F.bodies:
+        if 'convex_cell_alternative' in b['path'] or '::tests::' in b['path']:
+            continue
+        for bl in b['blocks']:
+            for st in bl['stmts']:
+                if st['k'] != 'assign':
+                    continue
+                rv = st['rv']
+                if rv['k'] == 'aggregate' and (rv.get('adt') or '').endswith('convex_cell::Vertex'):
+                    writers.append(b['path'])
+                pl = st['place']
+                if any(e['k'] == 'field' and e.get('n') == 'radius2' for e in pl['p']):
+                    writers.append(b['path'])
+    others = sorted({x for x in writers if x != fd['path'] and not x.endswith(' as std::clone::Clone>::clone')})
+    ctx.check(rule, 'radius2-written-only-by-the-vertex-constructor' + sfx, not others and fd['path'] in writers, others or 'Vertex::from_dual only', 'Vertex records are built (and radius2 assigned) only in Vertex::from_dual', where(fd), key_extra='radius2-writers')
